@@ -512,7 +512,7 @@ def expr_datas():
             "m1": J.vstr("<b>", "data", True), "l1": J.vlist([J.vint(1), J.vint(2), J.vint(3)]), "l2": J.vlist([]),
             "l3": J.vlist([J.vstr("p<"), J.vint(4)]), "d1": J.vdict([(J.vstr("a"), J.vint(1)), (J.vstr("b"), J.vlist([J.vint(5)]))]),
             "o1": J.vobj("o1"), "f1": J.vfn("f1", "nargs"), "f2": J.vfn("f2", "arg0", J.vint(7)),
-            "f3": J.vfn("f3", "const", J.vstr("r&")), "n0": J.VNONE, "t1": J.vbool(True)}
+            "f3": J.vfn("f3", "const", J.vstr("r&")), "n0": J.VNONE, "t1": J.vbool(True), "e2": J.vint(2)}
     d2 = dict(base, i1=J.vint(0), i2=J.vint(5), s1=J.vstr(""), l1=J.vlist([J.vint(2)]), o1=J.vobj("o2"), t1=J.vbool(False),
               d1=J.vdict([(J.vstr("c"), J.vint(0))]), m1=J.vstr("", "data", True))
     d3 = {k: v for k, v in base.items() if k not in ("i2", "s2", "l3", "d1", "f2")}
@@ -534,7 +534,7 @@ class ExprGen:
         if r < 0.5:
             op = self.pick("+", "-", "*", "//", "%", "+", "-", "*", "**")
             if op == "**":
-                return J.Bin(op, self.gint(d - 1), self.pick(C(0), C(1), C(2), C(3)))
+                return J.Bin(op, self.gint(d - 1), self.pick(C(0), C(1), C(2), C(3), N("e2"), N("e2"), N("z")))
             return J.Bin(op, self.gint(d - 1), self.gint(d - 1))
         if r < 0.56: return J.Neg(self.gint(d - 1))
         if r < 0.62: return J.Filter(self.glist(d - 1), self.pick("length", "sum", "first", "last", "max", "min"))
